@@ -1,3 +1,162 @@
 package main
 
-func (g *gen) stream8(name string, n int) bool { return false }
+import "fmt"
+
+func (g *gen) stream8(name string, n int) bool {
+	switch name {
+	case "client-hist":
+		g.clientHist(n)
+	default:
+		return g.stream9(name, n)
+	}
+	return true
+}
+
+func reqFor(id []byte, size int, fill byte) []byte {
+	var as []wattr
+	if size > 20 {
+		l := size - 24
+		if l < 0 {
+			l = 0
+		}
+		v := make([]byte, l)
+		for i := range v {
+			v[i] = fill + byte(i)
+		}
+		as = []wattr{{typ: 0x8022, val: v, pad: make([]byte, pad4(l))}}
+	}
+	return wire(0x0001, id, as)
+}
+
+func respFor(id []byte, n int) []byte {
+	v := []byte{0, 1, 0x12, 0x34, 127, 0, 0, byte(n)}
+	return wire(0x0101, id, []wattr{{typ: 0x0020, val: v}})
+}
+
+// n = exhaustive depth
+func (g *gen) clientHist(depth int) {
+	ids := [][]byte{
+		{1, 2, 3, 4, 5, 6, 7, 8, 9, 10, 11, 12},
+		{1, 2, 3, 4, 5, 6, 7, 8, 9, 10, 11, 13}, // differs in one bit
+	}
+	cnt := 0
+	type cfg struct{ att, noclose, fb int }
+	for _, c := range []cfg{{2, 0, 1}, {0, 1, 0}, {1, 0, 0}} {
+		var al []func(now *int, hn *int)
+		for _, id := range ids {
+			id := id
+			al = append(al,
+				func(now, hn *int) { g.emit("CL start %s %s %d", showHex(id), showHex(reqFor(id, 28, 1)), *hn); *hn++ },
+				func(now, hn *int) { g.emit("CL deliver %s", showHex(respFor(id, 1))) },
+			)
+		}
+		al = append(al,
+			func(now, hn *int) { g.emit("CL failwrite %s", showHex(ids[0])) },
+			func(now, hn *int) { g.emit("CL deliver %s", showHex([]byte{0, 1, 2, 3, 4, 5})) },
+			func(now, hn *int) { *now += 100; g.emit("CL tick %d", *now) },
+			func(now, hn *int) { *now += 101; g.emit("CL tick %d", *now) },
+			func(now, hn *int) { g.emit("CL start %s %s -", showHex(ids[1]), showHex(reqFor(ids[1], 20, 0))) },
+			func(now, hn *int) { g.emit("CL close") },
+		)
+		seq := make([]int, depth)
+		var rec func(k int)
+		rec = func(k int) {
+			if k == depth {
+				g.caseMark("client-exh", cnt)
+				cnt++
+				g.emit("CL new 100 %d %d %d 0 0", c.att, c.noclose, c.fb)
+				now, hn := 0, 1
+				for _, i := range seq {
+					al[i](&now, &hn)
+				}
+				g.emit("CL close")
+				return
+			}
+			for i := range al {
+				seq[k] = i
+				rec(k + 1)
+			}
+		}
+		rec(0)
+	}
+	// long random histories: many ids, message sizes up to 65535, RTO changes, attempt limits 0..8, close errors
+	nrand := 150
+	if g.tier == "thorough" {
+		nrand = 4000
+	}
+	for i := 0; i < nrand; i++ {
+		g.caseMark("client-rand", i)
+		att := g.r.intn(9)
+		rto := 50 + g.r.intn(200)
+		g.emit("CL new %d %d %d %d %d %d", rto, att, g.r.intn(2), g.r.intn(2), b2i(g.r.chance(1, 8)), b2i(g.r.chance(1, 8)))
+		nid := 1 + g.r.intn(12)
+		idl := make([][]byte, nid)
+		for j := range idl {
+			idl[j] = g.r.bytes(12)
+			if j > 0 && g.r.chance(1, 3) {
+				idl[j] = append([]byte{}, idl[j-1]...)
+				idl[j][g.r.intn(12)] ^= 1 << uint(g.r.intn(8))
+			}
+		}
+		now, hn := 0, 1
+		for k := 5 + g.r.intn(120); k > 0; k-- {
+			id := idl[g.r.intn(nid)]
+			switch op := g.r.intn(20); {
+			case op < 6:
+				size := 20 + g.r.intn(200)
+				switch g.r.intn(12) {
+				case 0:
+					size = 2040 + g.r.intn(20) // around the 2048-byte scratch buffer
+				case 1:
+					size = 3000 + g.r.intn(100)
+				case 2:
+					size = 65535
+				}
+				if g.r.chance(1, 8) {
+					g.emit("CL start %s %s -", showHex(id), showHex(reqFor(id, size, byte(k))))
+				} else {
+					g.emit("CL start %s %s %d", showHex(id), showHex(reqFor(id, size, byte(k))), hn)
+					hn++
+				}
+			case op < 10:
+				d := respFor(id, k)
+				if g.r.chance(1, 10) { // longer than the reader's 1024-byte buffer
+					d = reqFor(id, 1000+g.r.intn(100), 7)
+				}
+				g.emit("CL deliver %s", showHex(d))
+			case op == 10:
+				g.emit("CL deliver %s", showHex(g.r.bytes(g.r.intn(40))))
+			case op == 11:
+				g.emit("CL deliver %s", showHex(respFor(g.r.bytes(12), 1))) // unknown id
+			case op < 17:
+				now += []int{1, rto - 1, rto, rto + 1, 2 * rto, 10 * rto}[g.r.intn(6)]
+				g.emit("CL tick %d", now)
+			case op == 17:
+				g.emit("CL failwrite %s", showHex(id))
+			case op == 18:
+				rto = 20 + g.r.intn(300)
+				g.emit("CL setrto %d", rto)
+			default:
+				if g.r.chance(1, 6) {
+					g.emit("CL close")
+				} else {
+					now += g.r.intn(rto)
+					g.emit("CL clock %d", now)
+				}
+			}
+		}
+		g.emit("CL tick %d", now+100000)
+		g.emit("CL close")
+		g.emit("CL close")
+		g.emit("CL start %s %s %d", showHex(idl[0]), showHex(reqFor(idl[0], 24, 0)), hn)
+	}
+}
+
+func b2i(b bool) int {
+	if b {
+		return 1
+	}
+	return 0
+}
+
+var _ = fmt.Sprint
